@@ -9,6 +9,10 @@ ids = [json.loads(l)['id'] for l in (V / 'properties.jsonl').read_text().splitli
 TECH = 'contract-based deductive verification: own VC generator (pyvc) over the real .py/.pyx source, sidecar contracts, z3/cvc5'
 
 CLAIMED = {
+	'C10': dict(
+		text='find_matches is verified for every forest, genome list and distance vector: each genome index is filed under exactly the taxon its own lineage and distance select (the defined least-covering-index function of C03), indices in reference order, no match lost (dict-of-lists loop invariant). The consensus step and the strict branch of classify are covered by a BOUNDED stand-in, not a proof: the real classify(strict=True) is run under every permutation of the reference genomes on forests of <= 6 taxa and compared with a set-based specification (consensus = deepest taxon comparable with every matched taxon, warning iff a matched taxon lies strictly below it, primary match = nearest genome at or below it, failure iff no common root). That run exposed the order dependence of the original consensus_taxon (repaired by a fix: commit).',
+		note='Trusted: C03 base. consensus_taxon / strict classify: bounded only (labelled; a contract is written but its forest obligations exceed the solver budget).',
+		design='3/C10'),
 	'C16': dict(
 		text='dist_cmd is verified in all query/reference source combinations (signature file, files, database, square; symbolic flags) against a provenance contract: the row and column labels handed to the writer are the ids of exactly the signature collections the matrix was computed from (files and their labels are derived together; file signatures keep file order), non-square -> full matrix of queries x references, square -> pairwise of the queries. dump_dmat_csv is verified against a ghost CSV document: header = corner + column ids, row i = row id + 4-decimal rendering of each cell of row i, ValueError when the row count differs (strict zip). Bounded companion: the real command on the bundled genomes against per-pair distances.',
 		note='Trusted: click, csv.writer.writerow, format(), C05/C08/C12/C13 contracts in provenance form.',
